@@ -7,5 +7,6 @@ CONSTANTS
   MaxDamage = 2
   MaxStamp = 5
   ScriptId = "none"
+  GoalId = "none"
 INVARIANT NoPropertyViolation
 CHECK_DEADLOCK FALSE
